@@ -136,8 +136,8 @@ func zzC11Run(spec string) {
 	zzPinRand()
 	opts := zzCmdOpts(root)
 	p := zzPlanDoc(spec)
-	zzStdinPlan(p, zzBool("stdin.parseError"))
 	zzStdinPiped(true)
+	zzStdinPlan(p, zzBool("stdin.parseError"))
 	err := RunPlan(nil, opts)
 	written := zzWritten()
 	zzAfter("plan", err, opts.JSON)
